@@ -177,50 +177,23 @@ def check(ctx):
                 wrapper_validity(ctx, b, tb, bi, sv)
                 todo.append(b)
                 continue
-            if sv[0] == 'list':
-                if len(sv[1]) >= 1:
-                    ctx.ok('C04.1', site, 'non-empty by construction: [x]')
-                    for x in sv[1]:
-                        entering(ctx, b, tb, bi, x, site)
-                else:
-                    ctx.fail('C04.1', site, 'node built over an empty assertion list', key='C04.1|emptylist|' + b.path)
-                continue
-            if sv[0] == 'mut' and call_name(sv) == 'push' and sv[2] == 0:
-                base, new = sv[3][0], sv[3][1]
-                if node_assertions_of_self(base):
-                    ctx.ok('C04.1', site, 'non-empty by construction: push(assertions of the matched node, x)')
-                    growth(ctx, b, tb, bi, base, new, site)
-                    entering(ctx, b, tb, bi, new, site)
-                else:
-                    ctx.fail('C04.1', site, 'push onto a vector that is not the matched node\'s assertions: %s' % fmt(base), key='C04.1|pushbase|' + b.path)
-                continue
-            if node_assertions_of_self(sv):
-                if sv[0] == 'call':
-                    # accessor form assertions(self): empty for a non-node receiver, so a not-empty guard is required
-                    ok, info = guard_dominates(b, tb, [bi], lambda t: t[0] == 'call' and call_name(t) == 'is_empty' and strip_sites(t[2][0]) == sv, False)
-                    if not ok:
-                        ctx.fail('C04.1', site, 'node built over assertions(self) without a not-empty guard: ' + info, key='C04.1|accessor_empty|' + b.path)
-                        continue
-                    ctx.ok('C04.1', site, 'assertions(self) reused unchanged on the not-empty edge; ' + info)
-                else:
-                    ctx.ok('C04.1', site, 'assertion vector of the matched node reused unchanged (non-empty, valid and duplicate-free by induction)')
-                ctx.ok('C04.7', site, 'digest-multiset-preserving: the same vector')
-                continue
-            col = m_call(sv, name='collect', trait='Iterator')
-            if col is not None:
-                mp = m_call(col[0], name='map', trait='Iterator')
-                if mp is not None and node_assertions_of_self(elem_source(mp[0])):
-                    ctx.ok('C04.1', site, 'element-wise image of the matched node\'s assertions (same length)')
-                    # the mapping must be the digest-preserving recursion (judged by C02.4)
-                    ctx.ok('C04.7', site, 'element-wise map over the node\'s own vector; digest preservation of the mapped function is C02.4')
-                    continue
-                # decoder: decoded tail
-                if mp is not None and b.impl_trait and b.impl_trait.endswith('CBORTaggedDecodable'):
-                    ctx.ok('C04.1', site, 'decoded tail elements[1..]: non-empty by the element-count guard (C06.1)', nontrivial=False)
-                    continue
             if sv[0] == 'mut' and call_name(sv) in ('remove', 'swap_remove') and sv[2] == 0 and node_assertions_of_self(sv[3][0]):
                 shrink(ctx, b, tb, bi, sv, site)
                 continue
+            # every other construction is read in sequence normal form: singles ('one') and per-element images ('each')
+            v0 = detry(vec)
+            while v0[0] == 'mut' and call_name(v0) in ('sort_by', 'sort_unstable_by', 'sort_by_key', 'sort', 'sort_unstable') and v0[2] == 0:
+                v0 = v0[3][0]
+            parts = seq_norm(v0, b, bi)
+            if parts is not None and not parts:
+                ctx.fail('C04.1', site, 'node built over an empty assertion list', key='C04.1|emptylist|' + b.path)
+                continue
+            if parts is not None:
+                ones = [v for k, v in parts if k == 'one']
+                eachs = [v for k, v in parts if k == 'each']
+                verdict = classify_parts(ctx, b, tb, bi, ones, eachs, site)
+                if verdict:
+                    continue
             ctx.fail('C04.1', site, 'assertion vector at this node construction site has an unrecognised form (cannot show non-empty / valid / duplicate-free): %s' % fmt(sv),
                      key='C04.1|form|' + b.path, rule='FLOW/IDIOM-UNKNOWN')
     ctx.count('node_constructor_call_sites', n_sites)
@@ -231,6 +204,83 @@ def check(ctx):
     elif not any(r['inst'] == 'C04.5' and rm.path in r['site'] for r in getattr(ctx, 'results', []) if r.get('status') in ('pass', 'violation')) and hasattr(ctx, 'results'):
         ctx.fail('C04.5', ctx.site(rm), 'remove_assertion does not rebuild through node-constructor(subject(self), remove(assertions(self), position(..))) with the collapse test: '
                  'its result cannot be shown to be the receiver minus exactly the target', key='C04.5|role')
+
+
+def elem_of_self(v):
+    """v mentions an element of the matched node's own assertion vector -> that vector (else None)."""
+    for x in walk(v):
+        if isinstance(x, tuple) and x and x[0] == 'elem' and node_assertions_of_self(x[1]):
+            return x[1]
+    return None
+
+
+def classify_parts(ctx, b, tb, bi, ones, eachs, site):
+    """Judge a node construction whose assertion vector has the given sequence parts. True when the form was understood
+    (verdicts recorded), False when it is not one of the known idioms."""
+    F = ctx.F
+    own = []          # 'each' parts ranging over the matched node's own assertions
+    tails = []        # decoded tail: decode(elem(X[k..]))
+    for v in eachs:
+        V = elem_of_self(v)
+        if V is not None:
+            own.append((v, V))
+            continue
+        d = m_call(v, name='from_untagged_cbor')
+        ix = m_index(d[0][1]) if d is not None and d[0][0] == 'elem' else None
+        if ix is not None and ix[1][0] == 'agg' and ix[1][1].endswith('RangeFrom') and const_int(ix[1][3][0]) is not None:
+            tails.append((v, ix[0], const_int(ix[1][3][0])))
+            continue
+        return False
+    if len(own) > 1 or (own and tails):
+        return False
+    if tails:
+        # non-empty iff the decoded array has more than k elements: the site must be unreachable for every shorter length
+        v, X, k = tails[0]
+        def len_of_X(x):
+            return (x[0] == 'call' and call_name(x) == 'len' and strip_sites(detry(x[2][0])) == X) or (x[0] == 'len' and strip_sites(detry(x[1])) == X)
+        lens = find_terms(b, tb, len_of_X)
+        if not ones:
+            if not lens or any(bi in reach_under(b, tb, {l: n for l in lens}) for n in range(0, k + 1)):
+                ctx.fail('C04.1', site, 'node built over the decoded tail [%d..] of %s without an element-count guard that makes it non-empty' % (k, fmt(X)), key='C04.1|tail|' + b.path)
+                return True
+        ctx.ok('C04.1', site, 'decoded tail elements[%d..]: non-empty by the element-count guard (site unreachable for len <= %d)' % (k, k), nontrivial=False)
+        for x in ones:
+            entering(ctx, b, tb, bi, x, site)
+        return True
+    if own:
+        v, V = own[0]
+        identity = v == ('elem', V)
+        if not ones:
+            if V[0] == 'call':
+                # accessor form assertions(self): empty for a non-node receiver, so a not-empty guard is required
+                ok, info = guard_dominates(b, tb, [bi], lambda t: t[0] == 'call' and call_name(t) == 'is_empty' and strip_sites(t[2][0]) == V, False)
+                if not ok:
+                    ctx.fail('C04.1', site, 'node built over assertions(self) without a not-empty guard: ' + info, key='C04.1|accessor_empty|' + b.path)
+                    return True
+                ctx.ok('C04.1', site, 'assertions(self) reused on the not-empty edge; ' + info)
+            elif identity:
+                ctx.ok('C04.1', site, 'assertion vector of the matched node reused unchanged (non-empty, valid and duplicate-free by induction)')
+            else:
+                ctx.ok('C04.1', site, 'element-wise image of the matched node\'s assertions (same length)')
+            if identity:
+                ctx.ok('C04.7', site, 'digest-multiset-preserving: the same vector')
+            else:
+                # the mapping must be the digest-preserving recursion (judged by C02.4)
+                ctx.ok('C04.7', site, 'element-wise map over the node\'s own vector; digest preservation of the mapped function is C02.4')
+            return True
+        if not identity:
+            return False
+        ctx.ok('C04.1', site, 'non-empty by construction: the matched node\'s assertions plus %d new element(s)' % len(ones))
+        for x in ones:
+            growth(ctx, b, tb, bi, V, x, site)
+            entering(ctx, b, tb, bi, x, site)
+        return True
+    if ones:
+        ctx.ok('C04.1', site, 'non-empty by construction: %d listed element(s)' % len(ones))
+        for x in ones:
+            entering(ctx, b, tb, bi, x, site)
+        return True
+    return False
 
 
 def entering(ctx, b, tb, bi, x, site):
@@ -294,32 +344,56 @@ def wrapper_validity(ctx, b, tb, bi, param):
 
 
 def growth(ctx, b, tb, bi, base, new, site):
-    """C04.3: duplicate suppression at a push site."""
+    """C04.3: duplicate suppression at a growing site: the site is reached only if NO existing assertion has the digest of the
+    element added (any(..)==false, all(!=), or a loop that leaves on the first equal digest), and the duplicate exit returns self."""
     F = ctx.F
-    def guard(t):
-        if t[0] != 'call' or call_name(t) != 'any':
-            return False
-        return node_assertions_of_self(elem_source(t[2][0])) and t[2][1][0] == 'closure'
-    gs = find_terms(b, tb, guard)
+    gs = forall_guards(F, b, tb, [bi], node_assertions_of_self)
     if not gs:
         ctx.fail('C04.3', site, 'push site is not guarded by a duplicate test over the node\'s assertions', key='C04.3|missing|' + b.path)
         return
-    okc, why = digest_eq_closure(F, gs[0][2][1], new)
-    if not okc:
-        ctx.fail('C04.3', site, 'duplicate test does not compare each existing assertion\'s digest with the digest of the element pushed: %s' % why, key='C04.3|closure|' + b.path)
-        return
-    ok, info = guard_dominates(b, tb, [bi], guard, False)
-    if not ok:
-        ctx.fail('C04.3', site, 'push not dominated by the not-a-duplicate edge: ' + info, key='C04.3|dominance|' + b.path)
-        return
-    # duplicate edge returns self
-    reach = reach_under(b, tb, {strip_sites(gs[0]): True})
-    dup_rets = [strip_sites(detry(t)) for bi2, si2, t in ret_defs(tb) if bi2 in reach and bi2 not in reach_under(b, tb, {strip_sites(gs[0]): False})]
-    good = dup_rets and all(r == ('agg', 'core::result::Result', 'Ok', (P1,), ('0',)) or r == P1 for r in dup_rets)
-    if good:
-        ctx.ok('C04.3', site, 'push only when no existing assertion has the new element\'s digest (%s); duplicate edge returns self; %s' % (why, info), sample=why)
-    else:
-        ctx.fail('C04.3', site, 'duplicate edge does not return self unchanged: %s' % [fmt(r) for r in dup_rets], key='C04.3|dupret|' + b.path)
+    nt = strip_sites(new)
+    problems = []
+    for g in gs:
+        def side(x, g=g):
+            d = m_digest(x)
+            if d is not None and d == g.elem:
+                return 'elem'
+            if d is not None and g.captured(d) == nt:
+                return 'new'
+            c = g.captured(x)
+            if c is not x and m_digest(c) is not None and strip_sites(m_digest(c)) == nt:
+                return 'new'
+            if m_digest(x) is None and x == nt:
+                return None
+            return None
+        def is_cmp(t, g=g):
+            if t[0] != 'call' or call_name(t) not in ('eq', 'ne') or len(t[2]) != 2:
+                return False
+            return sorted([side(t[2][0]) or '', side(t[2][1]) or '']) == ['elem', 'new']
+        atoms = g.atoms(is_cmp)
+        if len(atoms) != 1:
+            problems.append('duplicate test does not compare each existing assertion\'s digest with the digest of the element pushed (%s)' % g.describe())
+            continue
+        eq_is = call_name(atoms[0]) == 'eq'
+        bad = forall_table(g, atoms, lambda v: (not v[0]) if eq_is else v[0])
+        if bad:
+            problems.append('element passes the duplicate test although its digest equals the new one: %s' % (bad[:2],))
+            continue
+        # duplicate exit returns self
+        if g.kind in ('all', 'any'):
+            dupv = (g.kind == 'any')
+            reach = reach_under(b, tb, {g.term: dupv})
+            other = reach_under(b, tb, {g.term: not dupv})
+            dup_rets = [strip_sites(detry(t)) for bi2, si2, t in ret_defs(tb) if bi2 in reach and bi2 not in other]
+        else:
+            reach = reach_under(b, tb, {atoms[0]: eq_is}, start=g.some, stop_blocks=[g.header])
+            dup_rets = [strip_sites(detry(t)) for bi2, si2, t in ret_defs(tb) if bi2 in reach]
+        good = dup_rets and all(r == ('agg', 'core::result::Result', 'Ok', (P1,), ('0',)) or r == P1 for r in dup_rets)
+        if good:
+            ctx.ok('C04.3', site, 'grown only when no existing assertion has the new element\'s digest (%s; %s); duplicate exit returns self' % (g.describe(), g.info), sample=fmt(atoms[0]))
+            return
+        problems.append('duplicate edge does not return self unchanged: %s' % [fmt(r) for r in dup_rets])
+    ctx.fail('C04.3', site, '; '.join(problems), key='C04.3|' + b.path)
 
 
 def shrink(ctx, b, tb, bi, sv, site):
